@@ -202,3 +202,10 @@ func (r *Relay) RegsSnapshot() [][]*builderapi.VersionedSignedValidatorRegistrat
 }
 
 var _ = builderv1.ValidatorRegistration{}
+
+// SetUnblindFn replaces the unblinding behaviour.
+func (r *Relay) SetUnblindFn(f func(ctx context.Context, opts *builderapi.UnblindProposalOpts) (*consensusapi.VersionedSignedProposal, error)) {
+	r.mu.Lock()
+	r.UnblindFn = f
+	r.mu.Unlock()
+}
